@@ -449,6 +449,8 @@ class ImageBatch(DataTensor):
         grid = self._grid
         if dim < 0:
             dim += self.ndim
+        if start < 0:
+            start += self.shape[dim]
         if dim == 0:
             grid = grid[start : start + length]
         elif dim > 1:
